@@ -28,7 +28,9 @@ static void MIR_NO_RETURN h_mini_error (enum MIR_error_type t, const char *fmt, 
   h_err_seen = (int) t;
   H_ASSERT (h_err_expected || h_err_allowed, "error callback invoked although the input is well-formed");
   H_ASSERT (h_err_code_expected < 0 || h_err_code_expected == (int) t, "error callback invoked with the documented error code");
+#ifdef H_ERROR_PATH_WITNESS /* harnesses in which the error path must be reachable define this */
   H_WITNESS ("error path");
+#endif
 #if H_CBMC
   __CPROVER_assume (0);
 #endif
